@@ -2,10 +2,16 @@ import EqsigVerif.Gen.PeaksFns
 import EqsigVerif.Gen.CrossingsFns
 import EqsigVerif.Props.C12
 import EqsigVerif.Props.C12Discharged
+import EqsigVerif.Props.C12Repair
+import EqsigVerif.Model.SwitchedOut
+import EqsigVerif.Lemmas.NpU
+import EqsigVerif.Lemmas.SwitchedOut
 import EqsigVerif.Props.C11Gen
 import EqsigVerif.Lemmas.CrossingsGen
 /-!
 # C12 — bridges from the definitions generated from `eqsig/fns/peaks_and_crossings.py` (`Gen/CrossingsFns.lean`) to `Model/Switched.lean`
+and, for the repaired `get_switched_peak_array_indices` (finding F12-3: the function ends with `return np.unique(switched_peak_indices)`),
+to `Model/SwitchedOut.lean`: generated function = `switchedPeaksOutE` = `NpU.unique` of the loop's result `switchedPeaks`.
 -/
 -- the simp sets contain the variants for commuted operands in the source (used only after such a rewrite)
 set_option linter.unusedSimpArgs false
@@ -164,10 +170,10 @@ theorem groups_report_lt (tol : ℚ) (pv : List ℚ) :
   have := itemsFrom_fst_lt pv 0 pv.length e hmem
   omega
 
-/-- `get_switched_peak_array_indices(values, tol)` — all arguments, error branch included -/
+/-- `get_switched_peak_array_indices(values, tol)` (repaired: loop, then `np.unique`) — all arguments, error branch included -/
 theorem gen_switched_peaks (v : List ℚ) (tol : ℚ) :
-    Gen.CrossingsFns.switchedPeakArrayIndices v tol = switchedPeaksE v tol := by
-  unfold Gen.CrossingsFns.switchedPeakArrayIndices switchedPeaksE
+    Gen.CrossingsFns.switchedPeakArrayIndices v tol = switchedPeaksOutE v tol := by
+  unfold Gen.CrossingsFns.switchedPeakArrayIndices switchedPeaksOutE
   cases v with
   | nil => rfl
   | cons x xs =>
@@ -215,7 +221,7 @@ theorem gen_switched_peaks (v : List ℚ) (tol : ℚ) :
         takeE_ok _ _ hrange
       rw [this]
       simp only [List.isEmpty_cons, Bool.false_eq_true, if_false]
-      unfold switchedPeaks newPeakPositions peakPosItems
+      unfold switchedPeaksOut switchedPeaks newPeakPositions peakPosItems
       rw [← zip_range_eq_itemsFrom, hlen, ← hpv]
 
 /-! ### wrappers (defaults read from the callees' signatures) -/
@@ -226,34 +232,27 @@ theorem gen_zero_crossings_indices (v : List ℚ) : Gen.CrossingsFns.zeroCrossin
   rw [gen_zero_crossings]
 
 /-- `get_switched_peak_indices(asig)` for an object with `.values`: `tol=0.0` -/
-theorem gen_switched_peak_indices (v : List ℚ) : Gen.CrossingsFns.switchedPeakIndices v = switchedPeaksE v 0 := by
+theorem gen_switched_peak_indices (v : List ℚ) : Gen.CrossingsFns.switchedPeakIndices v = switchedPeaksOutE v 0 := by
   unfold Gen.CrossingsFns.switchedPeakIndices
   rw [gen_switched_peaks]
 
 /-- `get_switched_peak_indices(values)` for a plain array -/
 theorem gen_switched_peak_indices_of_array (v : List ℚ) :
-    Gen.CrossingsFns.switchedPeakIndicesOfArray v = switchedPeaksE v 0 := by
+    Gen.CrossingsFns.switchedPeakIndicesOfArray v = switchedPeaksOutE v 0 := by
   unfold Gen.CrossingsFns.switchedPeakIndicesOfArray
   rw [gen_switched_peaks]
 
 /-- `get_n_cyc_array(values, opt='switched', start)` with the generated `get_switched_peak_array_indices` plugged in for the
-parameter `switched` of `Gen.PeaksFns.getNCycArray` (the call passes `values` only, so `tol` keeps its default `0.0`) -/
+parameter `switched` of `Gen.PeaksFns.getNCycArray` (the call passes `values` only, so `tol` keeps its default `0.0`); the knots are the
+indices the repaired function returns (`switchedPeaksOut`: for the all-zero series `[0]`, no longer the double knot `[0, 0]`) -/
 theorem gen_get_n_cyc_array_switched_full (v : List ℚ) (hv : v ≠ []) (so : Bool) :
     Gen.PeaksFns.getNCycArray (fun w => Gen.CrossingsFns.switchedPeakArrayIndices w 0) C11.interpM v "switched" (C11.startOf so) =
-      .ok (Model.Peaks.nCycFrom v.length (switchedPeaks v 0) so) := by
+      .ok (Model.Peaks.nCycFrom v.length (switchedPeaksOut v 0) so) := by
   apply C11.gen_get_n_cyc_array_switched
-  · simp only [gen_switched_peaks, switchedPeaksE]
+  · simp only [gen_switched_peaks, switchedPeaksOutE]
     obtain ⟨x, xs, rfl⟩ := List.exists_cons_of_ne_nil hv
     rfl
-  · rw [switchedPeaks_eq]
-    have : switchedGroups v 0 ≠ [] := by
-      intro h
-      have := switchedGroups_flatten v 0
-      rw [h] at this
-      have hp := peaks_ne_nil v
-      simp [peakItems] at this
-      exact hp this
-    simpa using this
+  · exact Lemmas.SwitchedOut.switchedPeaksOut_ne_nil v 0
 
 /-! ### the C12 theorems stated about the generated definitions -/
 
@@ -266,10 +265,27 @@ theorem gen_zc_ok (v : List ℚ) (hv : v ≠ []) (keep : Bool) (tol : ℚ) (ht :
   rfl
 
 theorem gen_sw_ok (v : List ℚ) (hv : v ≠ []) (tol : ℚ) :
-    Gen.CrossingsFns.switchedPeakArrayIndices v tol = .ok (switchedPeaks v tol) := by
+    Gen.CrossingsFns.switchedPeakArrayIndices v tol = .ok (switchedPeaksOut v tol) := by
   rw [gen_switched_peaks]
   obtain ⟨x, xs, rfl⟩ := List.exists_cons_of_ne_nil hv
   rfl
+
+/-- the generated function in terms of the loop model: `np.unique` of `switchedPeaks`; for a non-constant series the loop's result itself -/
+theorem gen_sw_ok_loop (v : List ℚ) (hv : Lemmas.Peaks.NonConstant v) (tol : ℚ) :
+    Gen.CrossingsFns.switchedPeakArrayIndices v tol = .ok (switchedPeaks v tol) := by
+  rw [gen_sw_ok v (Lemmas.Peaks.nonConstant_ne_nil v hv), switched_out_eq_full v hv]
+
+/-- **the repaired clause about the generated code**: for EVERY series and every `tol`, whatever the generated
+`get_switched_peak_array_indices` returns is strictly ascending (false before the repair: `np.zeros(n) ↦ [0, 0]`) -/
+theorem gen_switched_strict_ascending_all (v : List ℚ) (tol : ℚ) (S : List ℕ)
+    (h : Gen.CrossingsFns.switchedPeakArrayIndices v tol = .ok S) : S.Pairwise (· < ·) := by
+  rw [gen_switched_peaks] at h
+  exact switched_outE_strict_ascending v tol S h
+
+/-- the witness of F12-3 about the generated code: the all-zero series gives `[0]` (every length, every `tol`) -/
+theorem gen_switched_zero_series (n : ℕ) (tol : ℚ) :
+    Gen.CrossingsFns.switchedPeakArrayIndices (List.replicate (n+1) (0 : ℚ)) tol = .ok [0] := by
+  rw [gen_sw_ok _ (by simp), switched_out_zero_series]
 
 /-- C12.a about the generated `get_zero_crossings_array_indices` (`tol = 0`): membership and strict ascent -/
 theorem gen_zc_spec (v : List ℚ) (hv : v ≠ []) (keep : Bool) :
@@ -293,15 +309,14 @@ theorem gen_zc_negative_tol (v : List ℚ) (keep : Bool) (tol : ℚ) (h : tol < 
 theorem gen_switched_global_max (v : List ℚ) (hv : v ≠ []) :
     ∃ S, Gen.CrossingsFns.switchedPeakArrayIndices v 0 = .ok S ∧
       ∃ r ∈ S, ∀ i, i < v.length → |v.getD i 0| ≤ |v.getD r 0| :=
-  ⟨_, gen_sw_ok v hv 0, switched_global_max_full v hv⟩
+  ⟨_, gen_sw_ok v hv 0, switched_out_global_max v hv⟩
 
 /-- strict ascent and sign alternation of the generated switched-peak result (non-constant series) -/
 theorem gen_switched_shape (v : List ℚ) (hv : Lemmas.Peaks.NonConstant v) :
     ∃ S, Gen.CrossingsFns.switchedPeakArrayIndices v 0 = .ok S ∧ S.Pairwise (· < ·) ∧ S.Sublist (Model.Peaks.peaks v) ∧
       S.IsChain (fun a b => v.getD a 0 * v.getD b 0 ≤ 0) := by
-  have hne := Lemmas.Peaks.nonConstant_ne_nil v hv
-  have h := switched_shape v hne
-  exact ⟨_, gen_sw_ok v hne 0, switched_strict_ascending_full v hv 0, h.1, h.2.2⟩
+  have h := switched_shape v (Lemmas.Peaks.nonConstant_ne_nil v hv)
+  exact ⟨_, gen_sw_ok_loop v hv 0, switched_strict_ascending_full v hv 0, h.1, h.2.2⟩
 
 /-! ### concrete instances (kernel-checked), one per generated definition -/
 
@@ -317,5 +332,12 @@ example : Gen.CrossingsFns.switchedPeakArrayIndicesStep (0 : ℚ) [0, 2, 1] (0, 
   decide +kernel
 example : Gen.CrossingsFns.switchedPeakIndices ([5, 1, 3, -1] : List ℚ) = .ok [0, 3] ∧
     Gen.CrossingsFns.switchedPeakIndicesOfArray ([5, 1, 3, -1] : List ℚ) = .ok [0, 3] := by decide +kernel
+example : Gen.CrossingsFns.switchedPeakArrayIndices ([0, 0, 0] : List ℚ) 0 = .ok [0] ∧
+    Gen.CrossingsFns.switchedPeakArrayIndices ([0, 0, 0] : List ℚ) (1/2) = .ok [0] ∧
+    Gen.CrossingsFns.switchedPeakIndices ([0] : List ℚ) = .ok [0] ∧
+    Gen.CrossingsFns.switchedPeakArrayIndices ([] : List ℚ) 0 = .error .IndexError := by decide +kernel
+example : (∀ S, Gen.CrossingsFns.switchedPeakArrayIndices ([0, 0] : List ℚ) 0 = .ok S → S.Pairwise (· < ·)) ∧
+    Gen.CrossingsFns.switchedPeakArrayIndices ([0, 0] : List ℚ) 0 = .ok [0] :=
+  ⟨gen_switched_strict_ascending_all _ _, gen_switched_zero_series 1 0⟩
 
 end EqsigVerif.Props.C12
